@@ -2,6 +2,8 @@ import CLModel.Proto
 import CLModel.Parser.Formats
 import CLModel.Parser.Fluent
 import CLModel.Parser.Position
+import CLModel.Parser.PositionCache
+import CLModel.Lint.Linter
 import CLModel.Ops.C01
 namespace Ops.C17
 open Proto P Pos
@@ -147,7 +149,44 @@ def opFluentFile (toks : List String) : String :=
     | _, _ => "bad-args"
   | _ => "bad-args"
 
+/-- c17.lcseq <text> <p1> <p2> … : `linecol` for every position, in this order, on ONE `Parser.Context`
+    (the first call builds the cached line table) -/
+def opLcSeq (toks : List String) : String :=
+  match toks with
+  | t :: ps =>
+    match parseText t, ps.mapM parseInt with
+    | some t, some ps =>
+      " ".intercalate ((({ contents := t.toArray } : Ctx).linecolSeq ps).1.map showLC)
+    | _, _ => "bad-args"
+  | _ => "bad-args"
+
+/-- c17.junkmsg <text> <s> <e> : the whole text of `Junk.error_message()` (linter model of the message) -/
+def opJunkMsg (toks : List String) : String :=
+  match toks with
+  | [t, s, e] =>
+    match parseText t, parseNat s, parseNat e with
+    | some t, some s, some e =>
+      let ent : Lint.Ent := { kind := .junk, key := [], eq := 0, mode := .ctx, s := s, e := e }
+      showText (Lint.errorMessage t.toArray (Lint.lineEnds t) ent)
+    | _, _, _ => "bad-args"
+  | _ => "bad-args"
+
+/-- c17.node <offset> : `position(offset)` and `value_position(offset)` of an Android entity / XMLJunk (no spans) -/
+def opNode (toks : List String) : String :=
+  match toks with
+  | [o] =>
+    match parseInt o with
+    | some o =>
+      let ent : Lint.Ent := { kind := .entity, key := [], eq := 0, mode := .node, s := 0, e := 0 }
+      let p := Lint.position [] ent o
+      let v := match Lint.valuePosition [] ent (.value o) with
+        | .ok (l, c) => s!"{l},{c}"
+        | .error x => x
+      s!"{p.1},{p.2} {v}"
+    | none => "bad-args"
+  | _ => "bad-args"
+
 def ops : List (String × (List String → String)) :=
-  [("linecol", opLinecol), ("c17.pos", opPos), ("c17.vpos", opVPos), ("c17.dtd", opDtd), ("c17.ftl", opFtl),
+  [("c17.lcseq", opLcSeq), ("c17.junkmsg", opJunkMsg), ("c17.node", opNode), ("linecol", opLinecol), ("c17.pos", opPos), ("c17.vpos", opVPos), ("c17.dtd", opDtd), ("c17.ftl", opFtl),
    ("c17.junk", opJunk), ("c17.resolve", opResolve), ("c17.file", opFile), ("c17.fluent", opFluentFile)]
 end Ops.C17
